@@ -23,7 +23,7 @@ pub const ASSUMPTIONS: &[&str] = &[
     "a hang of the simplifier is reported by the supervisor's watchdog as inconclusive (exit 2), not as a violation",
 ];
 
-pub const RULE: &str = "fuzzer terms of depth <= 4 over {constant, byte, byte below m (rejects larger bytes on replay), two-byte integer, map (+ * mod), map2, choose (one branch consumes more), and_then with a data-dependent number of draws, retry-until (bounded), crash-on-value, fixed-length and continue-byte lists, option, pair} x predicates over the generated type (thresholds, modular, membership, length, sum, sortedness, equality of components, always true / false, crashing `expect`) with optional labels x seeds x n in {1, 5, 30, 100} x {plain, fail, fail once}. Non-trivial = a counterexample was found and simplification changed its choice sequence, for a fuzzer that draws a data-dependent number of choices or can reject on replay; distinct by (fuzzer, predicate, expectation, seed, n).";
+pub const RULE: &str = "fuzzer terms of depth <= 4 over {constant, byte, byte below m (rejects larger bytes on replay), byte padded with a default when the replayed choices are exhausted, two-byte integer, map (+ * mod), map2, choose (one branch consumes more), and_then with a data-dependent number of draws, retry-until (bounded), crash-on-value, fixed-length and continue-byte lists, option, pair} x predicates over the generated type (thresholds, modular, membership, length, sum, sortedness, equality of components, always true / false, crashing `expect`) with optional labels x seeds x n in {1, 5, 30, 100} x {plain, fail, fail once}. Non-trivial = a counterexample was found and simplification changed its choice sequence, for a fuzzer that draws a data-dependent number of choices or can reject on replay; distinct by (fuzzer, predicate, expectation, seed, n).";
 
 const LIB: &str = r#"use aiken/builtin
 
@@ -77,6 +77,20 @@ fn rand_below(m: Int) -> Fuzzer<Int> {
           }
         } else {
           None
+        }
+    }
+  }
+}
+
+fn rand_or(default: Int) -> Fuzzer<Int> {
+  fn(prng) {
+    when prng is {
+      Seeded { .. } -> rand(prng)
+      Replayed { cursor, .. } ->
+        if cursor >= 1 {
+          rand(prng)
+        } else {
+          Some((prng, default))
         }
     }
   }
@@ -268,6 +282,8 @@ enum F {
     Const(i64),
     Rand,
     Below(i64),
+    /// a byte; on replay an exhausted choice sequence is padded with the default
+    RandOr(i64),
     Wide,
     Add(Box<F>, i64),
     Mul(Box<F>, i64),
@@ -315,6 +331,7 @@ impl F {
             F::Const(k) => format!("constant({k})"),
             F::Rand => "rand".into(),
             F::Below(m) => format!("rand_below({m})"),
+            F::RandOr(d) => format!("rand_or({d})"),
             F::Wide => "map2(rand, rand, fn(a, b) { a * 256 + b })".into(),
             F::Add(f, k) => format!("map({}, fn(x) {{ x + {k} }})", f.text()),
             F::Mul(f, k) => format!("map({}, fn(x) {{ x * {k} }})", f.text()),
@@ -331,7 +348,7 @@ impl F {
     fn interesting(&self) -> bool {
         match self {
             F::Const(_) | F::Rand | F::Wide => false,
-            F::Below(_) | F::Choose(..) | F::Dep(_) | F::Retry(..) | F::CrashOn(..) => true,
+            F::Below(_) | F::RandOr(_) | F::Choose(..) | F::Dep(_) | F::Retry(..) | F::CrashOn(..) => true,
             F::Add(f, _) | F::Mul(f, _) | F::Mod(f, _) => f.interesting(),
             F::Plus(a, b) | F::Minus(a, b) => a.interesting() || b.interesting(),
         }
@@ -361,6 +378,7 @@ impl FA {
 
 trait Draws {
     fn rand(&mut self) -> Option<i64>;
+    fn rand_or(&mut self, default: i64) -> Option<i64>;
     fn below(&mut self, m: i64) -> Option<i64>;
 }
 
@@ -375,6 +393,9 @@ impl Draws for Seeded {
         self.seed = blake2b(&self.seed, 32);
         self.choices.push(c);
         Some(c as i64)
+    }
+    fn rand_or(&mut self, _default: i64) -> Option<i64> {
+        self.rand()
     }
     fn below(&mut self, m: i64) -> Option<i64> {
         let c = (self.seed[0] as i64 % m) as u8;
@@ -394,6 +415,15 @@ impl Draws for Replay<'_> {
         let c = *self.choices.get(self.pos)?;
         self.pos += 1;
         Some(c as i64)
+    }
+    fn rand_or(&mut self, default: i64) -> Option<i64> {
+        match self.choices.get(self.pos) {
+            Some(c) => {
+                self.pos += 1;
+                Some(*c as i64)
+            }
+            None => Some(default),
+        }
     }
     fn below(&mut self, m: i64) -> Option<i64> {
         let c = *self.choices.get(self.pos)? as i64;
@@ -419,6 +449,7 @@ fn run_f(f: &F, d: &mut dyn Draws) -> R<i64> {
         F::Const(k) => *k,
         F::Rand => tri!(Ok::<_, ()>(d.rand())),
         F::Below(m) => tri!(Ok::<_, ()>(d.below(*m))),
+        F::RandOr(k) => tri!(Ok::<_, ()>(d.rand_or(*k))),
         F::Wide => {
             let a = tri!(Ok::<_, ()>(d.rand()));
             let b = tri!(Ok::<_, ()>(d.rand()));
@@ -600,11 +631,12 @@ impl Lab {
 
 fn gen_f(src: &mut Src, depth: usize) -> F {
     if depth == 0 {
-        return match src.weighted(&[2, 5, 3, 2]) {
+        return match src.weighted(&[2, 5, 3, 2, 2]) {
             0 => F::Const(*src.pick(&[0i64, 1, 7, 100, -3])),
             1 => F::Rand,
             2 => F::Below(*src.pick(&[2i64, 3, 10, 100, 200])),
-            _ => F::Wide,
+            3 => F::Wide,
+            _ => F::RandOr(*src.pick(&[0i64, 1, 255, 7])),
         };
     }
     let sub = |src: &mut Src| Box::new(gen_f(src, depth - 1));
